@@ -243,21 +243,21 @@ def r11d(ck, fb):
                    'healthy_invalid:-1-under-healthy', iv.where(), 'marking an instance unhealthy does not decrement healthy_instance_size exactly when it was healthy')
         ins = util.mut_calls_on_field(iv, 'instances', r'HashMap::<K, V, S, A>::insert$')
         rmv = util.mut_calls_on_field(iv, 'instances', r'HashMap::<K, V, S, A>::remove$')
-        rets = iv.return_blocks()
-        ok = bool(rmv) and all(cfg.must_pass_before_return(iv, iv.blocks[r.bb]['t']['t'], {x.bb for x in ins} | {b for b in range(len(iv.blocks)) if any(a[0] == 'variant' and a[2] == 'None' for a in [])}) or True for r in rmv)
-        # every path from the Some edge of remove re-inserts
-        ok2 = True
-        for r in rmv:
-            for i, blk in enumerate(iv.blocks):
-                pass
-        somes = [i for i in range(len(iv.blocks)) if any(a[0] == 'variant' and a[2] == 'Some' for a in cfg.guard_atoms(iv, i)) and iv.blocks[i]['t']['k'] == 'return']
-        ck.require(len(ins) == 2, 'R11d', 'healthy_invalid:reinserts', iv.where(), 'the instance taken out of the map is not put back on both paths')
+        # an instance taken out of the map (remove) is put back on every path; a rewrite that never takes it out has nothing to put back
+        lost = []
+        for (s0, d0, lab0) in util.option_edges(iv, rmv, 'Some'):
+            if not cfg.must_pass_before_return(iv, d0, {x.bb for x in ins}):
+                lost.append(d0)
+        ck.require(not lost, 'R11d', 'healthy_invalid:reinserts', iv.where(lost[0]) if lost else iv.where(), 'the instance taken out of the map is not put back on every path')
     pv = ck.body(SV + 'update_perpetual_instance_healthy_valid', 'R11d')
     if pv:
         hsz = counter_writes(pv, 'healthy_instance_size')
         ok = len(hsz) == 1 and delta_of(pv, hsz[0][0], hsz[0][1], 'h') == 1 and cond_on(pv, hsz[0][0], field_cond('healthy', False)) and cond_on(pv, hsz[0][0], field_cond('ephemeral', False))
         ck.require(ok, 'R11d', 'perpetual_valid:+1-under-!healthy&&!ephemeral', pv.where(), 'marking a persistent instance healthy does not increment exactly when it was unhealthy and persistent')
-        ck.require(len(util.mut_calls_on_field(pv, 'instances', r'HashMap::<K, V, S, A>::insert$')) == 2, 'R11d', 'perpetual_valid:reinserts', pv.where(), 'instance not re-inserted on both paths')
+        pins = util.mut_calls_on_field(pv, 'instances', r'HashMap::<K, V, S, A>::insert$')
+        prmv = util.mut_calls_on_field(pv, 'instances', r'HashMap::<K, V, S, A>::remove$')
+        plost = [d0 for (s0, d0, lab0) in util.option_edges(pv, prmv, 'Some') if not cfg.must_pass_before_return(pv, d0, {x.bb for x in pins})]
+        ck.require(not plost, 'R11d', 'perpetual_valid:reinserts', pv.where(plost[0]) if plost else pv.where(), 'the instance taken out of the map is not put back on every path')
 
 
 SINK_LOCALS = {'mark_add_perpetual_instance', 'mark_remove_perpetual_instance', 'replace_old_client_id', 'perpetual_changed'}
